@@ -23,10 +23,15 @@ pub fn stub_lsx_inv(block: &mut Block, key: &Block) {
     let x = k::xor16(&block.0, &key.0);
     block.0 = k::usi(&k::uli(&x));
 }
+/// key schedule harness: lsx(b, k) := LS(b ^ k) with LS the single uninterpreted function of kz_common
+pub fn stub_lsx_ls(block: &mut Block, key: &Block) {
+    let x = k::xor16(&block.0, &key.0);
+    block.0 = k::uls1(&x);
+}
 
 // ---------------------------------------------------------------------------------------------------------- leaves
 
-//@ harness name=kuz_compact_leaf_consts prop=C07,C20 tier=thorough bits=16 est=60 desc="L: P[x] == pi(x), P_INV[x] == pi^-1(x) for all octets x; KEYGEN[i] == C_{i+1} = L(Vec128(i+1)) for symbolic i in 0..32"
+//@ harness name=kuz_compact_leaf_consts prop=C07,C20 tier=quick bits=16 est=45 desc="L: P[x] == pi(x), P_INV[x] == pi^-1(x) for all octets x; KEYGEN[i] == C_{i+1} = L(Vec128(i+1)) for symbolic i in 0..32"
 verif_harness! {
     name: kuz_compact_leaf_consts,
     bytes: 2,
@@ -117,33 +122,22 @@ verif_harness! {
     }
 }
 
-// ---------------------------------------------------------------------------------------------------------- wiring: encryption
+// ---------------------------------------------------------------------------------------------------------- key schedule
 
-//@ harness name=kuz_compact_keys prop=C07,C20 tier=thorough bits=256 stub=1 est=120 mem=30 cap=3600 desc="W: round keys of KuznyechikEnc::new(key) (compact_soft expand) == oracle K1..K10 (Feistel key schedule with C_1..C_32), all 2^256 keys"
+//@ harness name=kuz_compact_keys prop=C07,C20 tier=quick bits=256 stub=1 est=120 desc="W: round keys of KuznyechikEnc::new(key) (compact_soft expand) == oracle K1..K10 (Feistel key schedule with the computed C_1..C_32) for all 2^256 keys; lsx(b, k) := LS(b ^ k) where LS is ONE uninterpreted function shared with the oracle's L S (32 applications per side)"
 verif_harness! {
     name: kuz_compact_keys,
     bytes: 32,
     unwind: 70,
-    stubs: [(crate::compact_soft::backends::lsx, stub_lsx), (crate::compact_soft::backends::lsx_inv, stub_lsx_inv)],
+    stubs: [(crate::compact_soft::backends::lsx, stub_lsx_ls), (refmodels::kuznyechik::c, k::stub_c)],
     prop: |inp| { k::w_keys(inp) }
 }
-//@ harness name=kuz_compact_enc_key prop=C07,C03,C12,C20 tier=thorough bits=384 stub=1 est=200 mem=30 cap=3600 desc="W: KuznyechikEnc::new(key).encrypt_block(b) == oracle E(key schedule(key), b), all keys, all blocks"
-verif_harness! {
-    name: kuz_compact_enc_key,
-    bytes: 48,
-    unwind: 70,
-    stubs: [(crate::compact_soft::backends::lsx, stub_lsx), (crate::compact_soft::backends::lsx_inv, stub_lsx_inv)],
-    prop: |inp| { k::w_enc_key(inp, 0) }
-}
-//@ harness name=kuz_compact_enc_key_both prop=C07,C03,C12,C20 tier=thorough bits=384 stub=1 est=200 mem=30 cap=3600 desc="W: Kuznyechik::new(key).encrypt_block(b) == oracle E(key schedule(key), b), all keys, all blocks"
-verif_harness! {
-    name: kuz_compact_enc_key_both,
-    bytes: 48,
-    unwind: 70,
-    stubs: [(crate::compact_soft::backends::lsx, stub_lsx), (crate::compact_soft::backends::lsx_inv, stub_lsx_inv)],
-    prop: |inp| { k::w_enc_key(inp, 1) }
-}
-//@ harness name=kuz_compact_enc_rk prop=C07,C03,C12,C20 tier=thorough bits=1408 stub=1 est=60 desc="W: KuznyechikEnc over arbitrary round keys: encrypt_block == oracle E (9 LSX rounds + X), all round keys, all blocks"
+
+// ---------------------------------------------------------------------------------------------------------- wiring: encryption
+// lsx := L S X, lsx_inv := S^-1 L^-1 X with S, L uninterpreted inverse pairs (kz_common); arbitrary round keys (a superset of
+// the key schedule's outputs): with kuz_compact_keys this is conformance for all keys.
+
+//@ harness name=kuz_compact_enc_rk prop=C07,C03,C12,C20 tier=quick bits=1408 stub=1 est=60 desc="W: KuznyechikEnc over arbitrary round keys: encrypt_block == oracle E (9 LSX rounds + X), all round keys, all blocks"
 verif_harness! {
     name: kuz_compact_enc_rk,
     bytes: 160 + 16,
@@ -167,21 +161,13 @@ verif_harness! {
     stubs: [(crate::compact_soft::backends::lsx, stub_lsx), (crate::compact_soft::backends::lsx_inv, stub_lsx_inv)],
     prop: |inp| { k::w_enc_rk(inp, Route::Val) }
 }
-//@ harness name=kuz_compact_enc_rk_ref prop=C12,C03,C20 tier=thorough bits=1408 stub=1 est=60 desc="W: Kuznyechik::from(&enc) (by reference): encrypt_block == oracle E, all round keys, all blocks"
+//@ harness name=kuz_compact_enc_rk_ref prop=C12,C03,C20 tier=quick bits=1408 stub=1 est=60 desc="W: Kuznyechik::from(&enc) (by reference): encrypt_block == oracle E, all round keys, all blocks"
 verif_harness! {
     name: kuz_compact_enc_rk_ref,
     bytes: 160 + 16,
     unwind: 70,
     stubs: [(crate::compact_soft::backends::lsx, stub_lsx), (crate::compact_soft::backends::lsx_inv, stub_lsx_inv)],
     prop: |inp| { k::w_enc_rk(inp, Route::Ref) }
-}
-//@ harness name=kuz_compact_enc_rk_valclone prop=C12,C20 tier=thorough bits=1408 stub=1 est=60 desc="W: Kuznyechik::from(enc).clone(): encrypt_block == oracle E, all round keys, all blocks"
-verif_harness! {
-    name: kuz_compact_enc_rk_valclone,
-    bytes: 160 + 16,
-    unwind: 70,
-    stubs: [(crate::compact_soft::backends::lsx, stub_lsx), (crate::compact_soft::backends::lsx_inv, stub_lsx_inv)],
-    prop: |inp| { k::w_enc_rk(inp, Route::ValClone) }
 }
 //@ harness name=kuz_compact_enc_rk_refclone prop=C12,C20 tier=thorough bits=1408 stub=1 est=60 desc="W: Kuznyechik::from(&enc).clone(): encrypt_block == oracle E, all round keys, all blocks"
 verif_harness! {
@@ -193,8 +179,10 @@ verif_harness! {
 }
 
 // ---------------------------------------------------------------------------------------------------------- wiring: decryption
+// This back end decrypts with the standard's own structure over the encryption round keys (no pre-transformed keys, no
+// linearity assumption).
 
-//@ harness name=kuz_compact_dec_rk_val prop=C07,C03,C12,C20 tier=thorough bits=1408 stub=1 est=200 desc="W: KuznyechikDec::from(enc) (by value) over arbitrary encryption round keys: decrypt_block == oracle D = X[K1] S^-1 L^-1 X[K2] ... S^-1 L^-1 X[K10], all round keys, all blocks"
+//@ harness name=kuz_compact_dec_rk_val prop=C07,C03,C12,C20 tier=quick bits=1408 stub=1 est=100 desc="W: KuznyechikDec::from(enc) (by value) over arbitrary encryption round keys: decrypt_block == oracle D = X[K1] S^-1 L^-1 X[K2] ... S^-1 L^-1 X[K10], all round keys, all blocks"
 verif_harness! {
     name: kuz_compact_dec_rk_val,
     bytes: 160 + 16,
@@ -202,7 +190,7 @@ verif_harness! {
     stubs: [(crate::compact_soft::backends::lsx, stub_lsx), (crate::compact_soft::backends::lsx_inv, stub_lsx_inv)],
     prop: |inp| { k::w_dec_rk(inp, Route::Val, false, false) }
 }
-//@ harness name=kuz_compact_dec_rk_ref prop=C07,C03,C12,C20 tier=thorough bits=1408 stub=1 est=200 desc="W: KuznyechikDec::from(&enc) (by reference): decrypt_block == oracle D, all round keys, all blocks"
+//@ harness name=kuz_compact_dec_rk_ref prop=C07,C03,C12,C20 tier=quick bits=1408 stub=1 est=100 desc="W: KuznyechikDec::from(&enc) (by reference): decrypt_block == oracle D, all round keys, all blocks"
 verif_harness! {
     name: kuz_compact_dec_rk_ref,
     bytes: 160 + 16,
@@ -210,15 +198,7 @@ verif_harness! {
     stubs: [(crate::compact_soft::backends::lsx, stub_lsx), (crate::compact_soft::backends::lsx_inv, stub_lsx_inv)],
     prop: |inp| { k::w_dec_rk(inp, Route::Ref, false, false) }
 }
-//@ harness name=kuz_compact_dec_rk_valclone prop=C12,C20 tier=thorough bits=1408 stub=1 est=200 desc="W: KuznyechikDec::from(enc).clone(): decrypt_block == oracle D, all round keys, all blocks"
-verif_harness! {
-    name: kuz_compact_dec_rk_valclone,
-    bytes: 160 + 16,
-    unwind: 70,
-    stubs: [(crate::compact_soft::backends::lsx, stub_lsx), (crate::compact_soft::backends::lsx_inv, stub_lsx_inv)],
-    prop: |inp| { k::w_dec_rk(inp, Route::ValClone, false, false) }
-}
-//@ harness name=kuz_compact_dec_rk_refclone prop=C12,C20 tier=thorough bits=1408 stub=1 est=200 desc="W: KuznyechikDec::from(&enc).clone(): decrypt_block == oracle D, all round keys, all blocks"
+//@ harness name=kuz_compact_dec_rk_refclone prop=C12,C20 tier=thorough bits=1408 stub=1 est=100 desc="W: KuznyechikDec::from(&enc).clone(): decrypt_block == oracle D, all round keys, all blocks"
 verif_harness! {
     name: kuz_compact_dec_rk_refclone,
     bytes: 160 + 16,
@@ -226,7 +206,7 @@ verif_harness! {
     stubs: [(crate::compact_soft::backends::lsx, stub_lsx), (crate::compact_soft::backends::lsx_inv, stub_lsx_inv)],
     prop: |inp| { k::w_dec_rk(inp, Route::RefClone, false, false) }
 }
-//@ harness name=kuz_compact_both_dec_rk_val prop=C07,C03,C12,C20 tier=thorough bits=1408 stub=1 est=200 desc="W: Kuznyechik::from(enc) (by value): decrypt_block == oracle D, all round keys, all blocks"
+//@ harness name=kuz_compact_both_dec_rk_val prop=C07,C03,C12,C20 tier=thorough bits=1408 stub=1 est=100 desc="W: Kuznyechik::from(enc) (by value): decrypt_block == oracle D, all round keys, all blocks"
 verif_harness! {
     name: kuz_compact_both_dec_rk_val,
     bytes: 160 + 16,
@@ -234,7 +214,7 @@ verif_harness! {
     stubs: [(crate::compact_soft::backends::lsx, stub_lsx), (crate::compact_soft::backends::lsx_inv, stub_lsx_inv)],
     prop: |inp| { k::w_dec_rk(inp, Route::Val, true, false) }
 }
-//@ harness name=kuz_compact_both_dec_rk_ref prop=C07,C03,C12,C20 tier=thorough bits=1408 stub=1 est=200 desc="W: Kuznyechik::from(&enc) (by reference): decrypt_block == oracle D, all round keys, all blocks"
+//@ harness name=kuz_compact_both_dec_rk_ref prop=C07,C03,C12,C20 tier=quick bits=1408 stub=1 est=100 desc="W: Kuznyechik::from(&enc) (by reference): decrypt_block == oracle D, all round keys, all blocks"
 verif_harness! {
     name: kuz_compact_both_dec_rk_ref,
     bytes: 160 + 16,
@@ -242,15 +222,7 @@ verif_harness! {
     stubs: [(crate::compact_soft::backends::lsx, stub_lsx), (crate::compact_soft::backends::lsx_inv, stub_lsx_inv)],
     prop: |inp| { k::w_dec_rk(inp, Route::Ref, true, false) }
 }
-//@ harness name=kuz_compact_both_dec_rk_valclone prop=C12,C20 tier=thorough bits=1408 stub=1 est=200 desc="W: Kuznyechik::from(enc).clone(): decrypt_block == oracle D, all round keys, all blocks"
-verif_harness! {
-    name: kuz_compact_both_dec_rk_valclone,
-    bytes: 160 + 16,
-    unwind: 70,
-    stubs: [(crate::compact_soft::backends::lsx, stub_lsx), (crate::compact_soft::backends::lsx_inv, stub_lsx_inv)],
-    prop: |inp| { k::w_dec_rk(inp, Route::ValClone, true, false) }
-}
-//@ harness name=kuz_compact_both_dec_rk_refclone prop=C12,C20 tier=thorough bits=1408 stub=1 est=200 desc="W: Kuznyechik::from(&enc).clone(): decrypt_block == oracle D, all round keys, all blocks"
+//@ harness name=kuz_compact_both_dec_rk_refclone prop=C12,C20 tier=thorough bits=1408 stub=1 est=100 desc="W: Kuznyechik::from(&enc).clone(): decrypt_block == oracle D, all round keys, all blocks"
 verif_harness! {
     name: kuz_compact_both_dec_rk_refclone,
     bytes: 160 + 16,
@@ -258,26 +230,10 @@ verif_harness! {
     stubs: [(crate::compact_soft::backends::lsx, stub_lsx), (crate::compact_soft::backends::lsx_inv, stub_lsx_inv)],
     prop: |inp| { k::w_dec_rk(inp, Route::RefClone, true, false) }
 }
-//@ harness name=kuz_compact_dec_key prop=C07,C03,C12,C20 tier=thorough bits=384 stub=1 est=300 mem=30 cap=3600 desc="W: KuznyechikDec::new(key).decrypt_block(b) == oracle D(key schedule(key), b), all keys, all blocks"
-verif_harness! {
-    name: kuz_compact_dec_key,
-    bytes: 48,
-    unwind: 70,
-    stubs: [(crate::compact_soft::backends::lsx, stub_lsx), (crate::compact_soft::backends::lsx_inv, stub_lsx_inv)],
-    prop: |inp| { k::w_dec_key(inp, 0, false) }
-}
-//@ harness name=kuz_compact_dec_key_both prop=C07,C03,C12,C20 tier=thorough bits=384 stub=1 est=300 mem=30 cap=3600 desc="W: Kuznyechik::new(key).decrypt_block(b) == oracle D(key schedule(key), b), all keys, all blocks"
-verif_harness! {
-    name: kuz_compact_dec_key_both,
-    bytes: 48,
-    unwind: 70,
-    stubs: [(crate::compact_soft::backends::lsx, stub_lsx), (crate::compact_soft::backends::lsx_inv, stub_lsx_inv)],
-    prop: |inp| { k::w_dec_key(inp, 1, false) }
-}
 
 // ---------------------------------------------------------------------------------------------------------- round trips
 
-//@ harness name=kuz_compact_rt_enc_dec prop=C01,C20 tier=thorough bits=1408 stub=1 est=200 desc="W: KuznyechikEnc encrypts, KuznyechikDec::from(&enc) decrypts: result == b, arbitrary round keys, all blocks (S, L uninterpreted inverse pairs)"
+//@ harness name=kuz_compact_rt_enc_dec prop=C01,C20 tier=thorough bits=1408 stub=1 est=100 desc="W: KuznyechikEnc encrypts, KuznyechikDec::from(&enc) decrypts: result == b, arbitrary round keys, all blocks (S, L uninterpreted inverse pairs)"
 verif_harness! {
     name: kuz_compact_rt_enc_dec,
     bytes: 160 + 16,
@@ -285,7 +241,7 @@ verif_harness! {
     stubs: [(crate::compact_soft::backends::lsx, stub_lsx), (crate::compact_soft::backends::lsx_inv, stub_lsx_inv)],
     prop: |inp| { k::w_roundtrip_rk(inp, 0, false) }
 }
-//@ harness name=kuz_compact_rt_ed prop=C01,C20 tier=thorough bits=1408 stub=1 est=200 desc="W: Kuznyechik::from(&enc): dec(enc(b)) == b, arbitrary round keys, all blocks"
+//@ harness name=kuz_compact_rt_ed prop=C01,C20 tier=quick bits=1408 stub=1 est=100 desc="W: Kuznyechik::from(&enc): dec(enc(b)) == b, arbitrary round keys, all blocks (S, L uninterpreted inverse pairs)"
 verif_harness! {
     name: kuz_compact_rt_ed,
     bytes: 160 + 16,
@@ -293,7 +249,7 @@ verif_harness! {
     stubs: [(crate::compact_soft::backends::lsx, stub_lsx), (crate::compact_soft::backends::lsx_inv, stub_lsx_inv)],
     prop: |inp| { k::w_roundtrip_rk(inp, 1, false) }
 }
-//@ harness name=kuz_compact_rt_de prop=C01,C20 tier=thorough bits=1408 stub=1 est=200 desc="W: Kuznyechik::from(&enc): enc(dec(b)) == b, arbitrary round keys, all blocks"
+//@ harness name=kuz_compact_rt_de prop=C01,C20 tier=thorough bits=1408 stub=1 est=100 desc="W: Kuznyechik::from(&enc): enc(dec(b)) == b, arbitrary round keys, all blocks (S, L uninterpreted inverse pairs)"
 verif_harness! {
     name: kuz_compact_rt_de,
     bytes: 160 + 16,
